@@ -123,6 +123,11 @@ pub struct Scenario {
     /// writer has supplied so far, a seek fails)
     #[serde(default)]
     pub pipe_inputs: bool,
+    /// lines of the file behind standard input that its previous owner has already read: the
+    /// descriptor is handed over with its offset after them (`{ read header; daacfind ...; } < f`);
+    /// they are not part of the tool's input
+    #[serde(default)]
+    pub stdin_consumed: Vec<String>,
 }
 
 #[derive(Clone, Debug, Serialize, Deserialize)]
@@ -165,6 +170,7 @@ pub struct Counters {
     pub p_descriptor_limit: u64,
     pub p_pipe_inputs: u64,
     pub p_fifo_files: u64,
+    pub p_stdin_offset: u64,
     pub known_findings: u64,
 }
 
@@ -178,7 +184,7 @@ impl Counters {
             p_line_longer_than_buffer, p_pattern_file_trickled, p_two_files_no_filename,
             p_colored_runs, p_highlight_checked_lines, p_multibyte_highlight, p_dev_runs,
             p_release_runs, p_auto_colored, p_auto_plain, p_overlapping_occurrences,
-            p_empty_output, p_tall_input, p_more_than_256_files, p_descriptor_limit, p_pipe_inputs, p_fifo_files, known_findings
+            p_empty_output, p_tall_input, p_more_than_256_files, p_descriptor_limit, p_pipe_inputs, p_fifo_files, p_stdin_offset, known_findings
         );
     }
 }
@@ -777,7 +783,10 @@ pub fn execute(sc: &Scenario, bins: &Bins, dir: &Path) -> RunResult {
             w(name, &file_bytes(lines));
         }
     }
-    w("stdin.txt", &file_bytes(&sc.stdin_lines));
+    let consumed = file_bytes(&sc.stdin_consumed);
+    let mut stdin_data = consumed.clone();
+    stdin_data.extend_from_slice(&file_bytes(&sc.stdin_lines));
+    w("stdin.txt", &stdin_data);
     if sc.p_count < sc.patterns.len() {
         // `-f <(generator)`: the pattern file of a pipe-mode run is a FIFO as well
         if sc.pipe_inputs {
@@ -800,7 +809,16 @@ pub fn execute(sc: &Scenario, bins: &Bins, dir: &Path) -> RunResult {
         .env("IOFAULT_LOG", dir.join("io.log"))
         .env("IOFAULT_DIR", dir)
         .env("RUST_BACKTRACE", "0")
-        .stdin(if sc.pipe_inputs { Stdio::piped() } else { Stdio::from(std::fs::File::open(dir.join("stdin.txt")).unwrap()) })
+        .stdin(if sc.pipe_inputs {
+            Stdio::piped()
+        } else {
+            let mut f = std::fs::File::open(dir.join("stdin.txt")).unwrap();
+            if !consumed.is_empty() {
+                use std::io::Seek;
+                f.seek(std::io::SeekFrom::Start(consumed.len() as u64)).expect("harness: seek");
+            }
+            Stdio::from(f)
+        })
         .stdout(Stdio::from(std::fs::File::create(dir.join("out.bin")).unwrap()))
         .stderr(Stdio::from(std::fs::File::create(dir.join("err.txt")).unwrap()));
     if sc.nofile_limit > 0 {
@@ -924,6 +942,9 @@ pub fn run(sc: &Scenario, bins: &Bins, dir: &Path, known_crlf: bool) -> Outcome 
     let mut h = DefaultHasher::new();
     r.log.hash(&mut h);
     let mut trace_hash = h.finish();
+    if !sc.stdin_consumed.is_empty() && !sc.pipe_inputs && sc.files.is_empty() {
+        c.p_stdin_offset += 1;
+    }
     if sc.pipe_inputs {
         c.p_pipe_inputs += 1;
         c.p_fifo_files += sc.files.len() as u64;
@@ -1431,11 +1452,17 @@ pub fn generate(seed: u64, cfg: &GenCfg) -> Scenario {
         flag_style: if rng.chance(1, 3) { rng.below(6) as u8 } else { 0 },
         nofile_limit,
         pipe_inputs: false,
+        stdin_consumed: vec![],
     };
     // inputs that are not regular files (not with the same name twice: a FIFO is served once)
     let want_pipes = !cfg.small && rng.chance(1, 7) && sc.files.len() <= 8;
     if want_pipes && !(dup_file && mode != Mode::Hard) {
         sc.pipe_inputs = true;
+    }
+    if sc.files.is_empty() && !sc.pipe_inputs && !cfg.small && rng.chance(1, 4) {
+        // the descriptor behind standard input was partly read by its previous owner
+        let n = rng.range(1, 3);
+        sc.stdin_consumed = (0..n).map(|_| gen_line(&mut rng, &sc.patterns, false, None)).collect();
     }
     if dup_file && mode != Mode::Hard && !sc.pipe_inputs {
         // the same file given twice (not with hard faults: the relaxed oracle identifies the
@@ -1700,10 +1727,11 @@ pub fn minimise(sc: &Scenario, class: &str, bins: &Bins, dir: &Path, known_crlf:
             shrink(&mut cur, &|c: &mut Scenario| &mut c.stdin_lines[i]);
         }
         // flags
-        for k in 0..8 {
+        for k in 0..9 {
             let mut c = cur.clone();
             match k {
                 7 => c.pipe_inputs = false,
+                8 => c.stdin_consumed.clear(),
                 5 => {
                     c.pat_file_layout = 0;
                     c.flag_style = 0;
